@@ -140,4 +140,33 @@ PROPS = {
         "level_note": "Trusted: net/url and golang.org/x/net/publicsuffix (the same PSL snapshot the repository depends on).",
         "assumptions": COMMON_ASSUME + ["URLs are within the stated contract (hierarchical, no userinfo, no fragment directly after the host, no empty host label); others are skipped and counted"],
     },
+    "C15": {
+        "shards": (4, 16),
+        "rule": "rapid: 1..25 element-hiding rules/exceptions: generic, one or many permitted domains, negated domains, name.* wildcard TLDs, sub-domain-specific, multi-level and private suffixes, duplicate selectors, exceptions for some selectors; 1..8+ host names (listed domain, sub-domain, deeper sub-domain, sibling, label-boundary confusables, wildcard realisations, unrelated); all 8 flag combinations; through CosmeticEngine.Match and Engine.GetCosmeticResult. "
+                "Oracle: selectors of non-exception rules with CosmeticRule.Match(host) minus those with a matching same-selector exception; nothing without CSS; generic dropped without GenericCSS; bucket by 'has a permitted domain'; compared as sets per bucket. Non-trivial = host is a strict sub-domain of / a wildcard match for some rule domain, or an exception applies; distinct by (rules, host).",
+        "technique": "differential property-based testing (rapid): cosmetic engine vs linear scan with CosmeticRule.Match",
+        "level_text": "Generated search with a linear-scan reference over all rules, hosts and flag combinations.",
+        "level_note": "Trusted: CosmeticRule.Match as the definition of 'applies to the hostname' (the property names it); its domain semantics are exercised by C04's reference.",
+        "assumptions": COMMON_ASSUME + ["selectors compared as sets per bucket (duplicates of one selector are not part of the statement)"],
+    },
+    "C11": {
+        "shards": (4, 16),
+        "fuzz": [("FuzzC11", 90)],
+        "rule": "rapid: 1..4 lists with distinct ids from {-2^31,-1,0,1,2^31-1,...}/random int32, IgnoreCosmetic on/off, content assembled from a line pool (valid network/host/cosmetic rules, comments, blanks, whitespace-only and invalid lines, multi-byte UTF-8, invalid UTF-8, NUL bytes, tabs, lines of 4094..9000 bytes around the 4 KiB read buffer) with LF / CRLF / mixed endings, with or without final newline; every content is loaded String-backed and File-backed; thorough adds native fuzzing over raw content bytes. "
+                "Oracle: scanned (kind, text, list id, index) sequence == reference parse (split after every LF, NewRule per line, index = id<<32 | offset); indexes pairwise distinct; after the scan RetrieveRule(idx) gives the same kind/text/list id for every index, cold and cached, typed retrieval consistent; String and File backings give identical sequences and identical Network/DNS/Cosmetic engine answers. Non-trivial = >=1 rule yielded and >=2 of {CRLF, line >=4095 bytes, non-ASCII byte, invalid/NUL line}; distinct by content hash.",
+        "technique": "round-trip and differential property-based testing (rapid) + native fuzzing: scan vs reference parse vs retrieve, String vs File",
+        "level_text": "Generated and coverage-guided search over list contents with a line-by-line reference parse and a scan/retrieve round trip.",
+        "level_note": "Trusted: rules.NewRule for a single line (C12's subject); retrieval is only exercised after the scan finishes, as every engine constructor does.",
+        "assumptions": COMMON_ASSUME + ["list ids fit in 32 bits and are distinct; list offsets stay below 2^31"],
+    },
+    "C12": {
+        "shards": (4, 16),
+        "fuzz": [("FuzzC12", 180)],
+        "rule": "rapid: (1) lines: rules rendered from the modifier grammar, a deterministic sample of the three bundled lists, the C11 line pool, short hostile constants (1-2 character patterns, lone markers, unbalanced regexes, empty modifier values) and random bytes, each with 0..3 byte-level mutations (insert a syntax token, delete, bit flip, truncate); every accepted line is matched against 2..5 generated requests (forcing the lazily compiled pattern) and loaded into Engine/NetworkEngine/DNSEngine which are queried; (2) inertness: 3..25 valid rules (network, hosts, cosmetic) with 0..10 noise lines (blank, comments, rejected lines; verified to be non-rules) inserted at generated positions and optional LF->CRLF switching. thorough adds native fuzzing of (line, url, source, host). "
+                "Oracle: no panic; nil for blank/comment only, else an error, else Text()==TrimSpace(line) and the given list id; answers (MatchAll texts, basic verdict, cosmetic option, DNS result incl. rewrites and host rules, cosmetic selectors) identical with and without noise. Non-trivial = line parsed into a rule (then matched), or a noise/CRLF case whose answers are non-empty; distinct by line / noisy text.",
+        "technique": "grammar- and mutation-based property-based testing (rapid) + native coverage-guided fuzzing; crash oracle plus metamorphic inert-line relation",
+        "level_text": "Generated and coverage-guided search for a crashing line/request and for a result change caused by inert lines.",
+        "level_note": "Trusted: rules.NewRule as the definition of 'rejected line'. Non-termination would show as the test timeout (reported as inconclusive, exit 2).",
+        "assumptions": COMMON_ASSUME + ["a line contains no line feed", "callers check the error before using the returned rule"],
+    },
 }
